@@ -12,7 +12,9 @@ def codec_nontrivial(tok, res):
         return " C[] alive" not in res
     if tok[0] == "lane":            # a message reached a waiting Do call
         return "t>" in res
-    return tok[0] in ("first", "later", "gold", "sess", "nh", "batch")
+    if tok[0] in ("prd", "pinto"):   # a decode in a process in which services were constructed with a configuration profile
+        return True
+    return tok[0] in ("first", "later", "gold", "sess", "nh", "batch", "pfirst", "psess", "pcli")
 
 
 def codec_class(r):
@@ -37,7 +39,7 @@ def codec_class(r):
 
 PROP = {
         "level": "proof",
-        "gens": ["MsgSchema"],
+        "gens": ["MsgSchema", "MsgLimit"],
         "theorems": [
             "Frp.C17.be64_roundtrip", "Frp.C17.be64_surj",
             "Frp.C17.decode_encode", "Frp.C17.decode_encode_res", "Frp.C17.decode_ignores_rest",
@@ -84,8 +86,14 @@ PROP = {
             "Frp.C17.sched_independent", "Frp.C17.par_batch_roundtrip",
             "Frp.C17.udp_content_roundtrip", "Frp.C17.udp_batch_roundtrip", "Frp.C17.udp_pack_injective",
             "Frp.C17.reencode_stable", "Frp.C17.decode_reencode", "Frp.C17.itemHolds_sound", "Frp.C17.udpItemHolds_sound",
+            # the bound as a property of the PROCESS in every configuration (Model/CodecProc, Props/C17Limit, facts
+            # regenerated from every package + the golib module: Gen/MsgLimit)
+            "Frp.C17.limit_only_setMax", "Frp.C17.limit_invariant", "Frp.C17.limit_writer_witness",
+            "Frp.C17.golib_limit_facts", "Frp.C17.codec_object_single", "Frp.C17.frp_no_limit_writer",
+            "Frp.C17.proc_limit_constant", "Frp.C17.proc_decode_bounded", "Frp.C17.proc_oversize_refused",
+            "Frp.C17.proc_oversize_frame_refused", "Frp.C17.proc_roundtrip",
         ],
-        "extra_targets": ["Frp.Props.C17Dispatch", "Frp.Props.C17Lane", "Frp.Props.C17Batch"],
+        "extra_targets": ["Frp.Props.C17Dispatch", "Frp.Props.C17Lane", "Frp.Props.C17Batch", "Frp.Props.C17Limit"],
         "engines": [
             {"name": "codec", "quick_n": 20000, "thorough_n": 80000, "thorough_seeds": 5, "search_n": 6000, "search_seeds": 3,
              "nontrivial": codec_nontrivial, "result_class": codec_class},
@@ -122,7 +130,21 @@ PROP = {
                 "the model's frame of the original body — a result that changes after a later decode is prop=FAILS; "
                 "disp also runs with every handler wrapped in msg.AsyncHandler (calls compared as a multiset, each "
                 "delivery of the model must find a call of its own with the model's value); sess streams carry Ping, "
-                "NewProxy (one NewProxyResp each), CloseProxy, NatHoleReport and unhandled types. Non-trivial = every "
+                "NewProxy (one NewProxyResp each), CloseProxy, NatHoleReport and unhandled types. "
+                "batch udp queues its packets as a socket loop does: every payload is read into ONE receive buffer, "
+                "given to udp.NewUDPPacket as a slice of it, and the buffer is overwritten before any queued packet is "
+                "written (the packet must hold what was received). The bound as a property of the PROCESS in every "
+                "configuration: pfirst / psess = first / sess against live frps children started with a configuration "
+                "profile (udpPacketSize 1500 / 8000 / 65507 and generated combinations of udpPacketSize 1…2^20 with "
+                "maxPoolCount, maxPortsPerClient, heartbeatTimeout, userConnTimeout), prd / pinto = rd / into executed in "
+                "a child process in which server.NewService, client.NewService or both were constructed with the profile "
+                "first (the codec object is global: the main harness' own is never touched), pcli = a live frpc child "
+                "with the profile dials the harness, which answers its Login with the generated frame in place of the "
+                "LoginResp, or with a good LoginResp and then the frame on the encrypted control stream (frpc must end "
+                "that connection); the frames: all 18 types (first messages mostly Login / NewWorkConn / NewVisitorConn, "
+                "the ones a frps answers), WELL-FORMED JSON bodies of 10240 … 100000 bytes fully supplied; the model "
+                "ignores the profile (proc_limit_constant). disp / sess streams also carry the oversize class with the "
+                "whole body supplied. Non-trivial = every "
                 "case except a plain empty-object frame; distinct = distinct (op line, result) pairs",
         "trusted": COMMON_TRUST + [
             "encoding/json's TEXT level (which byte strings are a JSON text, which tree they denote, how values print) "
@@ -136,6 +158,12 @@ PROP = {
             "syntax (escaping, number text, member order) and net.IP text form stay trusted",
             "model Frp/Model/Frame.lean written by hand from golib@v0.5.1 msg/json {process,pack,msg}.go; tied by the codec engine",
             "translator /verif/translate (go/ast) for Frp/Gen/MsgSchema.lean; golden table Frp/Props/C17Golden.lean pinned by hand",
+            "translator generator MsgLimit (go/ast over every non-test .go file of the repository, go.mod, and the golib "
+            "module found in the module cache): syntactic facts — selectors named SetMaxMsgLength / NewMsgCtl, uses of the "
+            "package variable of pkg/msg holding the codec, mentions of the field name; writing the unexported field through "
+            "unsafe pointer arithmetic without naming it is outside what the facts see (the p* ops of the engine would)",
+            "model Frp/Model/CodecProc.lean (golib MsgCtl: maxMsgLength and its writers) written by hand; tied by "
+            "golib_limit_facts (regenerated) and the p* ops",
         ],
         "assumptions": [
             "nat-hole codec: AES-128-CFB (golib crypto.Encode/Decode) is trusted and carries no authentication: a "
@@ -159,18 +187,25 @@ PROP = {
             "equality after round trip is modulo: empty map/slice == nil (omitempty), 4-byte IP == 16-byte form; "
             "strings are valid UTF-8 (encoding/json replaces invalid bytes); IPs have length 0, 4 or 16",
             "the reader delivers at least one byte per Read or an error (io.Reader contract)",
+            "process-level bound: configuration profiles set size-like settings only (udpPacketSize, pool counts, port "
+            "limit, heartbeat / connection timeouts), transport plain TCP with tcpMux off; services are constructed "
+            "(prd / pinto) or run (pfirst / psess / pcli) in child processes; pcli claims only frames the framing refuses "
+            "(unknown type, negative, oversize): `closed` = frpc ended that control connection — in the login phase by "
+            "giving the login up, which ends that frpc (loginFailExit default) —, 1.5 s bound",
             "first-message probes: tcpMux off, plain TCP; first bytes 0x16/0x17/'G' are taken by the TLS/websocket "
             "sniffers and skipped; Login/NewWorkConn/NewVisitorConn first messages need the session model and are skipped",
         ],
     }
 
 META = {
-        "engine": "lean+translate(MsgSchema)+harness(codec)",
+        "engine": "lean+translate(MsgSchema,MsgLimit)+harness(codec)",
         "design_ref": "DESIGN.md §6 C17",
         "technique": "Lean 4 proofs about the framing model and the dispatcher transition system for all byte strings / streams (exact characterisation of accepted "
                      "inputs, bounds, error cases), kernel evaluation of the message table regenerated from "
-                     "pkg/msg/msg.go against a pinned golden table, differential correspondence with the real "
-                     "msg.WriteMsg/ReadMsg/ReadMsgInto, the real msg.Dispatcher over a pipe and a live frps",
+                     "pkg/msg/msg.go against a pinned golden table, go/ast facts about every writer of the decoder's limit in the "
+                     "whole repository, differential correspondence with the real "
+                     "msg.WriteMsg/ReadMsg/ReadMsgInto, the real msg.Dispatcher over a pipe, live frps / frpc processes "
+                     "started with non-default configurations",
         "text": "Proof: the modelled decoder returns ok(t, body, rest) exactly when the input is type byte t (registered) "
                 "+ 8-byte big-endian length + body + rest with |body| <= max; it then consumed exactly 9+|body| bytes and "
                 "allocated |body|; in every case the body allocation is <= max and nothing beyond the input is consumed; "
@@ -194,6 +229,13 @@ META = {
                 "= b for every payload and every batch of payloads, distinct payloads never collide (udp_*); the value that "
                 "was decoded encodes to the object that was on the wire (reencode_stable, decode_reencode); with "
                 "msg.AsyncHandler the calls are a permutation of the deliveries (dispHoldsOnAsync_sound). "
+                "The bound belongs to the process: the limit is a field of the one codec object of pkg/msg; only "
+                "SetMaxMsgLength moves it (limit_only_setMax, limit_invariant; limit_writer_witness shows one call lifts the "
+                "bound for all types), the facts regenerated from EVERY package and the golib module (golib_limit_facts, "
+                "codec_object_single) contain no writer (frp_no_limit_writer), so after every history of a process - any "
+                "services constructed with any configuration - the limit is 10240 (proc_limit_constant) and every input is "
+                "decoded within it, oversize frames refused with the body supplied or not (proc_decode_bounded, "
+                "proc_oversize_refused, proc_oversize_frame_refused, proc_roundtrip). "
                 "The model is tied to the code by thousands of generated values/byte strings/streams per "
                 "run with the Lean predicate evaluated on the implementation's own results.",
         "note": "Finding C17-null-body (fixed by 5c99d8a): a frame whose JSON body is the literal null made ReadMsg "
